@@ -433,6 +433,7 @@ def unstick(cx):
     step = cx.fn("Raft::step")
     m = _m_param(step)
     n1 = n2 = 0
+    conv = {}
     for t in tmpls(cx, {"MsgAppendResponse"}):
         if t.fn is not step:
             continue
@@ -451,7 +452,11 @@ def unstick(cx):
                 for ty in ("MsgHeartbeat", "MsgAppend"):
                     assume = lw + [("in", ("field", m, "Message.msg_type"), frozenset([ty]), MT), ("is", _flag_expr(g, flag), True), ("notin", ("field", m, "Message.term"), frozenset([0]), None)]
                     ok = _flag_expr(g, flag) is not None and all(g.dominated_by_block((rb, "term"), lambda b, t=t: b == t.site.block, assume=assume) for rb in _ret_blocks(cx, step))
-                    cx.check(ok, "converse:%s:%s" % (flag.split(".")[1], ty), "every lower-term %s is answered when %s is on" % (ty, flag.split(".")[1]))
+                    k_ = (flag.split(".")[1], ty)
+                    conv[k_] = conv.get(k_, False) or ok
+    # (the answer may be built at one site for both types or at one site per type: some site must cover each case)
+    for (fl_, ty), ok in sorted(conv.items()):
+        cx.check(ok, "converse:%s:%s" % (fl_, ty), "every lower-term %s is answered when %s is on" % (ty, fl_))
     for t in tmpls(cx, {"MsgRequestPreVoteResponse"}):
         if t.fn is not step or t.get("reject") != ("bool", True):
             continue
